@@ -414,8 +414,27 @@ func TestC11Order(t *testing.T) {
 			col.Case(false, cfg.String(), nil, "build-failed(not judged here)")
 			return
 		}
+		// in a third of the cases one or two later constructor invocations of non-singleton
+		// registrations fail: what was constructed on the way stays owned by its scope and is
+		// disposed with it, in the same reverse order as everything else
+		faultPlan := ""
+		if rapid.IntRange(0, 2).Draw(rt, "withFault") == 0 {
+			var cands []*kit.Reg
+			for _, id := range x.M.Order {
+				if r := x.M.Regs[id]; r.Life != kit.Singleton && r.Form != kit.FormInstance {
+					cands = append(cands, r)
+				}
+			}
+			for k := rapid.IntRange(1, 2).Draw(rt, "nfaults"); k > 0 && len(cands) > 0; k-- {
+				r := rapid.SampledFrom(cands).Draw(rt, "faultReg")
+				nth := x.W.Count[r.ID] + rapid.IntRange(1, 3).Draw(rt, "faultNth")
+				flt := faultFor(r, rapid.IntRange(0, 2).Draw(rt, "faultVariant"))
+				x.W.Faults[[2]int{r.ID, nth}] = flt
+				faultPlan += fmt.Sprintf("\nfault: invocation #%d of r%d, kind %d", nth, r.ID, flt.Kind)
+			}
+		}
 		x.genHistory(rt, histOpts{MaxSteps: 25, MaxDepth: 3, CloseScopes: true, ResolveWeight: 8})
-		canon := x.describe()
+		canon := x.describe() + faultPlan
 		perOwner := map[int]int{}
 		levels := map[int]bool{}
 		for _, e := range x.containerMade() {
@@ -436,8 +455,18 @@ func TestC11Order(t *testing.T) {
 			}
 		}
 		labels := []string{fmt.Sprintf("levels=%d", len(levels))}
+		for _, inv := range x.W.AllInvs() {
+			if inv.Outcome > 1 {
+				labels = append(labels, "constructor-fault-fired")
+				break
+			}
+		}
 		col.Case(nt, canon, canon, labels...)
-		if f := x.checkC11(); f != nil {
+		f := x.checkC11()
+		if f == nil {
+			f = x.checkC11Deps()
+		}
+		if f != nil {
 			if isKnown(f) {
 				col.Excluded()
 				return
